@@ -77,6 +77,7 @@ package valid
 //@   let wf = i >= 0 && !contains(toVal[i+1:], "~") && atoiOk(toVal[:i]) && atoiOk(toVal[i+1:])
 //@   modifies nothing
 //@   ensures [C01 parseTagTo.ok]  (err == nil) <==> wf
+//@   ensures [C13 parseTagTo.err] err != nil ==> safeErr(err)
 //@   ensures [C01 parseTagTo.val] wf ==> min == atoi(toVal[:i]) && max == atoi(toVal[i+1:])
 
 // ---------------------------------------------------------------------------
@@ -96,6 +97,7 @@ package valid
 //@   loop#0 invariant len(others) == 1 ==> sb.content(res) == ite(rangeindex < 0, head ++ ", " ++ inject, head ++ ", " ++ inject ++ others[0] ++ ErrEndFlag)
 
 //@ func GetJoinFieldErr
+//@   requires [C13 fielderr.err] itag(err) == tagof("string") || safeErr(err)
 //@   let pfx = ite(objName != "" && fieldName != "", "\"" ++ objName ++ "." ++ fieldName ++ "\" ", "")
 //@   modifies nothing
 //@   ensures [C02 fielderr.shape] prefixof(pfx, result) && suffixof(ErrEndFlag, result)
@@ -251,6 +253,8 @@ package valid
 //@   ensures [C09 load.touch]  ok ==> forall(k Iface :: has(l.nodeMap, k) && k != key ==> lst.stamp(l.list, l.nodeMap[k]) < lst.stamp(l.list, l.nodeMap[key]))
 //@   ensures [C09 load.others] forall(k Iface :: has(l.nodeMap, k) && k != key ==> lst.stamp(l.list, l.nodeMap[k]) == old(lst.stamp(l.list, l.nodeMap[k])))
 //@   ensures [C09 load.nomiss-effect] !ok ==> forall(x Int :: lst.stamp(l.list, x) == old(lst.stamp(l.list, x)))
+//@   ensures [C08 refine.load] ok ==> old(has(l.nodeMap, key) && eval(l.nodeMap[key]) == data)
+//@   ensures [C08 refine.load] forall(k Iface :: {has(l.nodeMap, k)} has(l.nodeMap, k) ==> old(has(l.nodeMap, k)) && eval(l.nodeMap[k]) == old(eval(l.nodeMap[k])))
 //@   ensures [C10 C11 load.unlocked] mu.held(addr.rwMu(l)) == 0 && mu.acq(addr.rwMu(l)) == old(mu.acq(addr.rwMu(l))) + 1
 
 //@ func (*LRUCache).delete
@@ -289,6 +293,7 @@ package valid
 //@         && forall(k Iface :: k != cb.key && k != key ==> has(l.nodeMap, k) == old(has(l.nodeMap, k)))
 //@   ensures [C09 store.others] forall(k Iface :: k != key && has(l.nodeMap, k) ==> old(has(l.nodeMap, k)) && eval(l.nodeMap[k]) == old(eval(l.nodeMap[k])) && lst.stamp(l.list, l.nodeMap[k]) == old(lst.stamp(l.list, l.nodeMap[k])))
 //@   ensures [C09 store.cap0]   l.maxSize == 0 ==> len(l.nodeMap) == 0 && (l.deleteCallBackFn != nil ==> cb.count == old(cb.count) + 1 && cb.key == key && cb.val == value)
+//@   ensures [C08 refine.store] forall(k Iface :: {has(l.nodeMap, k)} has(l.nodeMap, k) ==> (old(has(l.nodeMap, k)) && eval(l.nodeMap[k]) == old(eval(l.nodeMap[k]))) || (k == key && eval(l.nodeMap[k]) == value))
 //@   ensures [C10 C11 store.unlocked] mu.held(addr.rwMu(l)) == 0 && mu.acq(addr.rwMu(l)) == old(mu.acq(addr.rwMu(l))) + 1
 
 //@ func (*LRUCache).Delete
@@ -330,6 +335,7 @@ package valid
 //@ func CheckFieldIsStr
 //@   modifies nothing
 //@   ensures [C05 C13 isstr] (err == nil) <==> rv.kind(tv) == 24
+//@   ensures [C13 isstr.err] err != nil ==> safeErr(err)
 
 //@ func Phone
 //@   at call GetJoinValidErrStr#* assert [C15 phone.msg] ParseValidNameKV.cusMsg(validName) != "" ==> len(others) == 1 && others[0] == ParseValidNameKV.cusMsg(validName)
@@ -462,6 +468,7 @@ package valid
 //@   ensures [C05 dir.stat] (result1 == nil) <==> statOk(path)
 //@   ensures [C05 dir.stat] statOk(path) ==> result0 == statIsDir(path)
 //@   ensures [C05 dir.stat] result1 != nil ==> !result0
+//@   ensures [C13 dir.err] result1 != nil ==> safeErr(result1)
 
 // GetTimeFmt: the layouts the date rules hand to time.Parse (d, dt, t are the separators in force)
 //@ func GetTimeFmt$1
@@ -526,6 +533,7 @@ package valid
 //@   ensures [C16 fn.local]  v.validFn != nil && has(v.validFn, validName) ==> result0 == v.validFn[validName] && result1 == nil
 //@   ensures [C16 fn.global] !(v.validFn != nil && has(v.validFn, validName)) && has(validName2FnMap, validName) ==> result0 == validName2FnMap[validName] && result1 == nil
 //@   ensures [C16 fn.unknown] !(v.validFn != nil && has(v.validFn, validName)) && !has(validName2FnMap, validName) ==> result0 == nil && result1 != nil
+//@   ensures [C13 fn.unknown.err] result1 != nil ==> safeErr(result1)
 
 //@ func (*VStruct).getValidFn
 //@   requires vs.ok(v)
@@ -533,6 +541,7 @@ package valid
 //@   ensures [C16 fn.local]  v.vc.validFn != nil && has(v.vc.validFn, validName) ==> result0 == v.vc.validFn[validName] && result1 == nil
 //@   ensures [C16 fn.global] !(v.vc.validFn != nil && has(v.vc.validFn, validName)) && has(validName2FnMap, validName) ==> result0 == validName2FnMap[validName] && result1 == nil
 //@   ensures [C16 fn.unknown] !(v.vc.validFn != nil && has(v.vc.validFn, validName)) && !has(validName2FnMap, validName) ==> result0 == nil && result1 != nil
+//@   ensures [C13 fn.unknown.err] result1 != nil ==> safeErr(result1)
 
 //@ func (*VStruct).SetValidFn
 //@   requires vs.ok(v)
@@ -548,8 +557,9 @@ package valid
 // C08: the struct-type cache is transparent.
 // Weak cache contract (interface CacheEr): the cache may forget anything at any time, but whatever Load
 // returns for a key was stored for that key earlier. cache.stored is the set of (key, value) pairs the cache
-// may still return. LRUCache meets it through stored(k,x) := has(nodeMap,k) && eval(nodeMap[k]) == x
-// (clauses load.hit, store.value, store.others of C09); sync.Map is assumed to.
+// may still return. LRUCache meets it through stored(k,x) := has(nodeMap,k) && eval(nodeMap[k]) == x:
+// the clauses refine.load / refine.store on (*LRUCache).Load / Store are weak.load / weak.store with that
+// definition substituted, and are proved against the bodies; sync.Map is assumed to.
 
 //@ ghost cache.stored(Iface, Iface) Bool
 
@@ -771,6 +781,7 @@ package valid
 //@   ensures [C16 fn.local]  v.vc.validFn != nil && has(v.vc.validFn, validName) ==> result0 == v.vc.validFn[validName] && result1 == nil
 //@   ensures [C16 fn.global] !(v.vc.validFn != nil && has(v.vc.validFn, validName)) && has(validName2FnMap, validName) ==> result0 == validName2FnMap[validName] && result1 == nil
 //@   ensures [C16 fn.unknown] !(v.vc.validFn != nil && has(v.vc.validFn, validName)) && !has(validName2FnMap, validName) ==> result0 == nil && result1 != nil
+//@   ensures [C13 fn.unknown.err] result1 != nil ==> safeErr(result1)
 
 //@ func (*VVar).validate
 //@   at call ValidNamesSplit#0 reached_when [C02 C03 walk.enter] validNames != ""
@@ -814,6 +825,7 @@ package valid
 //@   ensures [C16 fn.local]  v.vc.validFn != nil && has(v.vc.validFn, validName) ==> result0 == v.vc.validFn[validName] && result1 == nil
 //@   ensures [C16 fn.global] !(v.vc.validFn != nil && has(v.vc.validFn, validName)) && has(validName2FnMap, validName) ==> result0 == validName2FnMap[validName] && result1 == nil
 //@   ensures [C16 fn.unknown] !(v.vc.validFn != nil && has(v.vc.validFn, validName)) && !has(validName2FnMap, validName) ==> result0 == nil && result1 != nil
+//@   ensures [C13 fn.unknown.err] result1 != nil ==> safeErr(result1)
 
 //@ func (*VMap).getKey
 //@   modifies nothing
@@ -863,6 +875,7 @@ package valid
 //@   ensures [C16 fn.local]  v.vc.validFn != nil && has(v.vc.validFn, validName) ==> result0 == v.vc.validFn[validName] && result1 == nil
 //@   ensures [C16 fn.global] !(v.vc.validFn != nil && has(v.vc.validFn, validName)) && has(validName2FnMap, validName) ==> result0 == validName2FnMap[validName] && result1 == nil
 //@   ensures [C16 fn.unknown] !(v.vc.validFn != nil && has(v.vc.validFn, validName)) && !has(validName2FnMap, validName) ==> result0 == nil && result1 != nil
+//@   ensures [C13 fn.unknown.err] result1 != nil ==> safeErr(result1)
 
 //@ func (*VUrl).validate
 //@   at call Split#0 assert [C01 C03 C17 C18 url.query] s == ite(indexof(decUrl, "?") == -1, "", decUrl[indexof(decUrl, "?")+1:]) && sep == "&"
